@@ -117,7 +117,12 @@ func executeCompaction(db *DB) (compactionMetadata *proto.CompactionMetadata, er
 		}
 	}()
 
+	// tombstones may only be dropped when no older table is left out of this compaction: otherwise a value for the
+	// same key in such an older table would become visible again. In that case they are kept (as empty values).
 	reduceFunc := sstables.ScanReduceLatestWinsSkipTombstones
+	if !compactionAction.includesOldest {
+		reduceFunc = scanReduceLatestWinsKeepTombstones
+	}
 	err = sstables.NewSSTableMerger(db.cmp).MergeCompact(iterators, writer, reduceFunc)
 	if err != nil {
 		return nil, err
@@ -144,6 +149,16 @@ func executeCompaction(db *DB) (compactionMetadata *proto.CompactionMetadata, er
 	log.Printf("done compacting %d sstables in %v. Path: [%s]\n", len(paths), time.Since(start), writeFolder)
 
 	return compactionMetadata, nil
+}
+
+// scanReduceLatestWinsKeepTombstones is sstables.ScanReduceLatestWins, but a tombstoned key survives with an empty value,
+// which reads as "not found" and is dropped by a later compaction that starts at the oldest table.
+func scanReduceLatestWinsKeepTombstones(key []byte, values [][]byte, context []int) ([]byte, []byte) {
+	key, val := sstables.ScanReduceLatestWins(key, values, context)
+	if val == nil {
+		return key, []byte{}
+	}
+	return key, val
 }
 
 func saveCompactionMetadata(writeFolder string, compactionMetadata *proto.CompactionMetadata) (err error) {
